@@ -3,15 +3,17 @@
 #   vlib/mutrig.sh <ID> <patch.diff> [tier]
 # Uses the persistent scratch worktree /tmp/mutrepo (git worktree of /repo) and a copy of /verif in
 # /tmp/vmut (its own .build, so the shared library build is not disturbed).
+# MUTSLOT=<k> selects an independent rig (/tmp/mutrepo<k>, /tmp/vmut<k>) so that several can run side by side.
 set -e
 # one user at a time: the scratch worktree and copy are shared
-if [ -z "$MUTRIG_LOCKED" ]; then MUTRIG_LOCKED=1 exec flock /tmp/mutrig.lock env MUTRIG_LOCKED=1 "$0" "$@"; fi
+S=${MUTSLOT:-}
+if [ -z "$MUTRIG_LOCKED" ]; then MUTRIG_LOCKED=1 exec flock /tmp/mutrig$S.lock env MUTRIG_LOCKED=1 "$0" "$@"; fi
 ID=$1; PATCH=$2; TIER=${3:-quick}
-[ -d /tmp/mutrepo ] || git -C /repo worktree add --detach /tmp/mutrepo HEAD -q
-git -C /tmp/mutrepo checkout -q --detach "$(git -C /repo rev-parse HEAD)"
-git -C /tmp/mutrepo checkout -- .
-mkdir -p /tmp/vmut
-rsync -a --delete --exclude .build --exclude out --exclude .git --exclude '*.vo' --exclude '*.vos' --exclude '*.vok' --exclude '*.glob' --exclude '.*.aux' /verif/ /tmp/vmut/
-if [ -n "$PATCH" ] && [ "$PATCH" != "-" ]; then git -C /tmp/mutrepo apply "$PATCH"; fi
-cd /tmp/vmut && VERIF_REPO=/tmp/mutrepo python3 check.py "$ID" --tier "$TIER" 2>&1 | grep -v '^KNOWN-FINDING' | tail -${TAILN:-6}
-git -C /tmp/mutrepo checkout -- .
+[ -d /tmp/mutrepo$S ] || git -C /repo worktree add --detach /tmp/mutrepo$S HEAD -q
+git -C /tmp/mutrepo$S checkout -q --detach "$(git -C /repo rev-parse HEAD)"
+git -C /tmp/mutrepo$S checkout -- .
+mkdir -p /tmp/vmut$S
+rsync -a --delete --exclude .build --exclude out --exclude .git --exclude '*.vo' --exclude '*.vos' --exclude '*.vok' --exclude '*.glob' --exclude '.*.aux' /verif/ /tmp/vmut$S/
+if [ -n "$PATCH" ] && [ "$PATCH" != "-" ]; then git -C /tmp/mutrepo$S apply "$PATCH"; fi
+cd /tmp/vmut$S && VERIF_REPO=/tmp/mutrepo$S python3 check.py "$ID" --tier "$TIER" 2>&1 | grep -v '^KNOWN-FINDING' | tail -${TAILN:-6}
+git -C /tmp/mutrepo$S checkout -- .
